@@ -349,11 +349,24 @@ def run_property(prop, tier, groups, meta, replay_fn=None, jobs=None):
                 viol.append((g, o))
     code = 0
     rep_dir = os.path.join(VERIF, "replays", prop)
+    replay_cache = {}
+    # groups extracted under WEAKENED rules (parts of the function abstracted more coarsely than the contract was written for): a failed
+    # obligation there is reported as a violation only if the native replay reproduces a failing input on the real code; otherwise UNDECIDED
+    weak_groups = sorted({g.name for g, o in viol if getattr(g, "weak", None)})
+    for gname in weak_groups:
+        g0, o0 = [(g, o) for g, o in viol if g.name == gname][0]
+        try:
+            concrete = replay_fn(g0, o0, [], os.path.join(rep_dir, "weak.json")) if replay_fn else {"reproduced": False}
+        except Exception as e:
+            concrete = {"reproduced": False, "error": repr(e)}
+        replay_cache[gname] = concrete
+        if not (concrete and concrete.get("reproduced")):
+            undec.append((g0, "refutation on a weakened extraction (%s) did not replay on the real code: undecided, not a violation" % g0.weak))
+            viol = [(g, o) for g, o in viol if g.name != gname]
     if viol:
         os.makedirs(rep_dir, exist_ok=True)
     printed = set()
     pergroup = {}
-    replay_cache = {}
     ntrace = 0
     for g, o in viol:
         code = 1
